@@ -668,8 +668,10 @@ impl Keys {
     fn pk(k: usize) -> Vec<u8> {
         Scheme::Ed25519.sign(KEY_SEEDS[k], b"x").0
     }
-    fn data(k: usize, t: u32) -> Vec<u8> {
-        claim_data(format!("claim-by-key-{k}-for-topic-{t}").as_bytes())
+    /// the same payload for both topics: a revocation is per (identity, topic, data), so revoking it
+    /// for one topic must not touch the other
+    fn data(k: usize, _t: u32) -> Vec<u8> {
+        claim_data(format!("claim-by-key-{k}").as_bytes())
     }
     fn exec(&self, i: &KInst, op: &KOp) -> bool {
         let e = &i.e;
@@ -742,7 +744,9 @@ impl World for Keys {
                 v.push(KOp::Revoke { k: 0, t, on: !m.revoked[0][(t - 1) as usize] });
             }
         } else {
-            v.push(KOp::Revoke { k: 0, t: 1, on: !m.revoked[0][0] });
+            for t in TOPICS {
+                v.push(KOp::Revoke { k: 0, t, on: !m.revoked[0][(t - 1) as usize] });
+            }
         }
         v.push(KOp::IdleProbe);
         v
@@ -828,6 +832,101 @@ impl World for Keys {
     }
     fn model_digest(&self, m: &KModel) -> u64 {
         vh::engine::dig(m)
+    }
+}
+
+// =============================================================================================
+// Layer 2b (stateless enumeration `hostile-identity-contract`): the account's identity contract is
+// not the library's and files claims wrongly: under the id of (issuer I1, required topic 1) it serves
+// a claim whose own fields say topic t / issuer i and whose issuer-side rendering is for topic s.
+// The verdict must be: verified exactly when the served claim IS a topic-1 claim of I1 that I1 confirms.
+
+fn hostile_case(case: &str) -> Result<(bool, bool), String> {
+    let p: Vec<u32> = case.split('-').filter_map(|x| x.parse().ok()).collect();
+    if p.len() != 4 {
+        return Err("bad case".into());
+    }
+    let (field_topic, field_issuer, sig_topic, listed_topic) = (p[0], p[1] as usize, p[2], p[3]);
+    let e = envx::mk_env(100);
+    let cti = e.register(wrap::CtiWrap, ());
+    let irs = e.register(wrap::IrsWrap, ());
+    let verifier = e.register(wrap::VerifierWrap, (cti.clone(), irs.clone()));
+    let issuers = [e.register(wrap::MockIssuer, ()), e.register(wrap::MockIssuer, ())];
+    let identity = e.register(wrap::MockIdentity, ());
+    let helper = e.register(wrap::IdentityWrap, ());
+    let account = Address::generate(&e);
+    let go = |c: &Address, f: &str, a: SVec<Val>| call_mocked(&e, c, f, a).map_err(|x| format!("{f}: {x:?}"));
+    go(&irs, "add_identity", (account.clone(), identity.clone()).into_val(&e))?;
+    go(&cti, "add_claim_topic", (1u32,).into_val(&e))?;
+    let mut ts: SVec<u32> = SVec::new(&e);
+    ts.push_back(1);
+    // both issuers are trusted for the required topic 1 (and nothing else)
+    for i in &issuers {
+        go(&cti, "add_trusted_issuer", (i.clone(), ts.clone()).into_val(&e))?;
+    }
+    let id1 = view(&e, &helper, "claim_id", (issuers[0].clone(), 1u32).into_val(&e)).map_err(|x| format!("claim_id: {x:?}"))?;
+    let claim = stellar_tokens::rwa::identity_claims::Claim {
+        topic: field_topic,
+        scheme: 101,
+        issuer: issuers[field_issuer].clone(),
+        signature: Bytes::from_array(&e, &[1, sig_topic as u8, 7]),
+        data: Bytes::from_array(&e, &[7]),
+        uri: SString::from_str(&e, "uri"),
+    };
+    go(&identity, "serve", (listed_topic, BytesN::<32>::try_from_val(&e, &id1).unwrap(), claim).into_val(&e))?;
+    let got = view(&e, &verifier, "verify_identity", (account,).into_val(&e)).is_ok();
+    // the only claim the identity holds counts iff it is listed for topic 1, says topic 1 and issuer I1
+    // (the id it is filed under), and I1 confirms it as a topic-1 claim
+    let want = listed_topic == 1 && field_topic == 1 && field_issuer == 0 && sig_topic == 1;
+    Ok((want, got))
+}
+
+fn layer2b(r: &mut Runner) {
+    if let Some(case) = r.replay_case("hostile-identity-contract") {
+        match hostile_case(&case) {
+            Ok((want, got)) => println!("case {case}: verify_identity ok = {got}, statement expects {want} -> {}", if want == got { "ok" } else { "VIOLATED" }),
+            Err(x) => println!("case {case}: {x}"),
+        }
+        return;
+    }
+    let Some(rep) = r.report() else { return };
+    let (mut acc, mut rej) = (0u64, 0u64);
+    for ft in [1u32, 2] {
+        for fi in [0u32, 1] {
+            for st in [1u32, 2] {
+                for lt in [1u32, 2] {
+                    let case = format!("{ft}-{fi}-{st}-{lt}");
+                    rep.evaluations += 1;
+                    rep.distinct_nontrivial += 1;
+                    match hostile_case(&case) {
+                        Err(x) => rep.machinery_error(&format!("layer 2b: {case}: {x}")),
+                        Ok((want, got)) => {
+                            if got {
+                                acc += 1
+                            } else {
+                                rej += 1
+                            }
+                            if want != got {
+                                rep.case_violation(
+                                    "hostile-identity-contract",
+                                    if got { "verified-without-valid-claims" } else { "valid-identity-rejected" },
+                                    "misfiled-claim",
+                                    case.clone(),
+                                    format!(
+                                        "identity contract serves, under the id of (I1, topic 1) and listed for topic {lt}, a claim whose fields say topic {ft} / issuer I{} and which the issuer would confirm for topic {st}: verify_identity ok = {got}, the statement requires {want} (required topic: 1)",
+                                        fi + 1
+                                    ),
+                                );
+                            }
+                        }
+                    }
+                }
+            }
+        }
+    }
+    rep.extra("hostile_identity_contract_cases", json!({"verified": acc, "rejected": rej}));
+    if acc == 0 || rej == 0 {
+        rep.machinery_error("layer 2b vacuous: no verified or no rejected case");
     }
 }
 
@@ -958,6 +1057,7 @@ fn main() {
         |tier: Tier, r: &mut Runner| {
             r.world(&Ver { thorough: tier == Tier::Thorough }, &Bounds::new(tier.pick(5, 7), tier.pick(30, 400)));
             layer1(tier, r);
+            layer2b(r);
             r.world(&Keys { thorough: tier == Tier::Thorough }, &Bounds::new(tier.pick(6, 14), tier.pick(30, 400)));
             if let Some(rep) = r.report() {
                 rep.require(
